@@ -78,6 +78,12 @@ def rty(t, self_name=None):
             return MSG if inner[0] == "nat" else ("list", inner)
         if name == "DateTime":
             return TIME
+        if name in ("Arc", "RwLock", "Mutex", "Box", "Rc"):
+            return rty(args[0], self_name)           # sharing / locking wrappers: the value inside
+        if name == "HashMap":
+            return ("hmap", rty(args[0], self_name), rty(args[1], self_name))
+        if name == "BTreeMap":
+            return ("btmap", rty(args[0], self_name), rty(args[1], self_name))
         if name == "Self":
             return ("struct", self_name)
         return ("struct", name)
@@ -114,6 +120,8 @@ def lty(t):
         return " × ".join([par(lty(t[1]))] * (t[2] or 2))
     if k == "list":
         return "List " + par(lty(t[1]))
+    if k in ("hmap", "btmap"):
+        return f"List ({par(lty(t[1]))} × {par(lty(t[2]))})"
     if k == "struct":
         return STRUCT_LEAN.get(t[1], "T." + t[1])
     raise TErr(f"lean type of {t}")
@@ -198,6 +206,7 @@ class Ctx:
         self.structs = {}    # name -> Struct
         self.sigs = {}       # key -> (lean name, [param types], ret type, self_kind, self type)
         self.needs = {}          # key -> ["now", "env"] extra parameters threaded through (clock, float / global environment)
+        self.mutp = {}           # key -> indexes of the `&mut T` parameters (returned, after self, as part of the result)
 
     def key_of(self, fn):
         if fn.impl_of and fn.impl_trait_arg:
@@ -226,6 +235,14 @@ class FnTr:
         # other translated functions are called by their translated names (the older plans call the hand model's names,
         # which the bridges of Proofs/BridgeBits.lean identify with the translated ones)
         self.bits = getattr(fn, "plan", None) in BITS_PLANS
+
+    def state_vars(self):
+        """what a function hands back besides its value: `self` of a `&mut self` method, then its `&mut T` parameters"""
+        fn = self.fn
+        vs = ["self"] if fn.self_kind == "mut" else []
+        for i in self.ctx.mutp.get(self.ctx.key_of(fn), []):
+            vs.append(fn.params[i][0][1])
+        return vs
 
     def fresh(self, base="t"):
         self.tmp += 1
@@ -769,6 +786,12 @@ class FnTr:
                 return f"{RV}.foldl {par(f)} {par(init)}", ity
             if name == "collect":
                 return recv, rt
+            if name in ("all", "any"):
+                f, _ = self.closure_fun(args[0], et, env, BOOL)
+                return f"{RV}.{name} {par(f)}", BOOL
+            if name == "contains":
+                x, _ = self.tr(args[0], env, et)
+                return f"{RV}.contains {par(x)}", BOOL
             raise TErr(f"slice/iterator method {name}")
         if rt[0] == "char" and name == "to_digit":
             if not (args and args[0][0] == "lit_int" and args[0][1] == 16):
@@ -1038,7 +1061,7 @@ class FnTr:
     # ---- statements -----------------------------------------------------------------------------
     def contains_return(self, node):
         if isinstance(node, tuple):
-            if node and node[0] == "return":
+            if node and node[0] in ("return", "continue"):
                 return True
             if node and node[0] == "closure":
                 return False
@@ -1074,7 +1097,23 @@ class FnTr:
             self.assigned(node[3], acc, env)
             return
         if k == "mcall":
+            if node[2] in ("retain", "shrink_to_fit") and self.map_base(node[1], env):
+                acc.add(node[1][1][0])
+            if node[2] == "or_insert":
+                b = node[1]
+                while b[0] == "mcall":
+                    b = b[1]
+                if self.map_base(b, env):
+                    acc.add(b[1][0])
             root = self.root_var(node[1])
+            if root is not None:
+                rty0 = env.get(root) if root != "self" else self.self_ty
+                if rty0 and rty0[0] == "struct":
+                    key0 = self.method_key(rty0[1], node[2], node[3], env)
+                    for i in self.ctx.mutp.get(key0, []):
+                        r2 = self.root_var(self.strip_ref(node[3][i]))
+                        if r2 is not None:
+                            acc.add(r2)
             if root is not None:
                 rty_ = env.get(root) if root != "self" else self.self_ty
                 if rty_ and rty_[0] == "struct":
@@ -1117,7 +1156,20 @@ class FnTr:
             return e[1][0]
         return None
 
+    def entry_target(self, lhs):
+        """X of `*X.entry(k).or_insert(v)`"""
+        if lhs[0] == "unary" and lhs[1] == "*" and lhs[2][0] == "mcall" and lhs[2][2] == "or_insert" \
+                and lhs[2][1][0] == "mcall" and lhs[2][1][2] == "entry":
+            return lhs[2][1][1], lhs[2][1][3][0], lhs[2][3][0]
+        return None
+
     def lhs_roots(self, lhs, acc):
+        if self.entry_target(lhs):
+            r = self.root_var(self.entry_target(lhs)[0])
+            if r is None:
+                raise TErr("assignment target")
+            acc.add(r)
+            return
         if lhs[0] == "tuple":
             for x in lhs[1]:
                 if not (x[0] == "path" and x[1] == ["_"]):
@@ -1245,6 +1297,10 @@ class FnTr:
             k0 = e[0]
             if k0 == "macro" and e[1] in LOG_MACROS:
                 return cont(env)
+            if k0 == "continue":
+                if not getattr(self.fn, "loop_step", False) or not allow_return:
+                    raise TErr("continue outside the translated loop body")
+                return self.ret_state(env)
             if k0 == "return":
                 if not allow_return:
                     raise TErr("return inside a value block")
@@ -1258,6 +1314,12 @@ class FnTr:
             if k0 in ("if", "iflet", "match", "block", "for"):
                 return self.tr_stmt_compound(e, env, cont, allow_return)
             if k0 == "mcall":
+                ms = self.map_stmt(e, env)
+                if ms is not None:
+                    return ms + cont(env)
+                mc = self.mut_call_stmt(e, env)
+                if mc is not None:
+                    return mc + cont(env)
                 # a `&mut self` method called for its effect
                 root = self.root_var(e[1])
                 acc = set()
@@ -1274,11 +1336,75 @@ class FnTr:
             raise TErr(f"expression statement {k0}")
         raise TErr("statement " + s[0])
 
+    def map_base(self, e, env):
+        """(variable, type) if `e` is a local of map type"""
+        if e[0] == "path" and len(e[1]) == 1 and e[1][0] in env and env[e[1][0]][0] in ("hmap", "btmap"):
+            return e[1][0], env[e[1][0]]
+        return None
+
+    def map_stmt(self, e, env):
+        """statements on a HashMap local:  m.entry(k).and_modify(|p| ..).or_insert(v);  m.retain(|k, v| ..);  m.shrink_to_fit();"""
+        name = e[2]
+        if name == "shrink_to_fit" and self.map_base(e[1], env):
+            return ""
+        if name == "retain":
+            mb = self.map_base(e[1], env)
+            if not mb:
+                return None
+            var, mty = mb
+            f, _ = self.closure_fun(e[3][0], [mty[1], mty[2]], env, BOOL)
+            return f"let {lname(var)} := {lname(var)}.filter (fun kv_ => ({f}) kv_.1 kv_.2);\n"
+        if name == "or_insert" and e[1][0] == "mcall" and e[1][2] == "and_modify" and e[1][1][0] == "mcall" and e[1][1][2] == "entry":
+            mb = self.map_base(e[1][1][1], env)
+            if not mb:
+                return None
+            var, mty = mb
+            key, _ = self.tr(e[1][1][3][0], env, mty[1])
+            cl = e[1][3][0]
+            if cl[0] != "closure" or len(cl[1]) != 1 or cl[1][0][0] != "p_ident":
+                raise TErr("and_modify closure")
+            pv = cl[1][0][1]
+            env2 = dict(env)
+            env2[pv] = mty[2]
+            body = cl[2] if cl[2][0] == "block" else ("block", [], cl[2])
+            stmts = list(body[1]) + ([("expr", body[2])] if body[2] is not None else [])
+            ftxt = self.seq(stmts, None, env2, (lambda env3: lname(pv)), None, {}, allow_return=False)
+            ins, _ = self.tr(e[3][0], env, mty[2])
+            return f"let {lname(var)} := hmUpsert {lname(var)} {par(key)} (fun {lname(pv)} =>\n{indent(ftxt, 2)}) {par(ins)};\n"
+        return None
+
+    def mut_call_stmt(self, e, env):
+        """`x.f(&mut y, ..);` where f hands back more than its receiver"""
+        recv_e, name, args = e[1], e[2], e[3]
+        root = self.root_var(recv_e)
+        rt = env.get(root) if root != "self" else self.self_ty
+        if not rt or rt[0] != "struct":
+            return None
+        key = self.method_key(rt[1], name, args, env)
+        mp = self.ctx.mutp.get(key, [])
+        if key not in self.ctx.sigs or not mp:
+            return None
+        sig = self.ctx.sigs[key]
+        targets = ([recv_e] if sig[3] == "mut" else []) + [self.strip_ref(args[i]) for i in mp]
+        txt, rty_ = self.tr(e, env)
+        if len(targets) == 1:
+            return self.assign_text(targets[0], txt, env)
+        v = self.fresh("r")
+        out = f"let {v} := {txt};\n"
+        tty = ("tuple", [None] * len(targets))
+        for i, t in enumerate(targets):
+            out += self.assign_text(t, self.proj(v, tty, i), env)
+        return out
+
+    def strip_ref(self, e):
+        while e[0] in ("unary", "paren") and (e[0] == "paren" or e[1] in ("&", "*")):
+            e = e[2] if e[0] == "unary" else e[1]
+        return e
+
     def ret_state(self, env):
-        """`return;` inside a `&mut self` method: the method's result is the current self"""
-        if self.fn.self_kind == "mut":
-            return "self"
-        return "()"
+        """`return;` (or `continue` in a loop body) inside a function with mutable state: the result is the current state"""
+        sv = self.state_vars()
+        return self.state_tuple(sv) if sv else "()"
 
     def tail_value(self, tail, env, expect, box, allow_return):
         """the value of a block's tail expression (k is None)"""
@@ -1435,6 +1561,18 @@ class FnTr:
 
     def tr_assign(self, e, env, cont):
         _, lhs, op, rhs = e
+        et = self.entry_target(lhs)
+        if et:
+            # *m.entry(k).or_insert(v) op= rhs     (a BTreeMap kept as a list sorted by key)
+            m_e, k_e, v_e = et
+            mtxt, mty = self.tr(m_e, env)
+            if mty[0] != "btmap" or op not in ("+=", "-="):
+                raise TErr("entry().or_insert() update on " + str(mty))
+            ktxt, _ = self.tr(k_e, env, mty[1])
+            vtxt, _ = self.tr(v_e, env, mty[2])
+            rtxt, _ = self.tr(rhs, env, mty[2])
+            new = f"btUpsert {par(mtxt)} {par(ktxt)} (fun c_ => c_ {op[0]} {par(rtxt)}) {par(vtxt)}"
+            return self.assign_text(m_e, new, env) + cont(env)
         if op != "=":
             bop = op[:-1]
             cur = lhs
@@ -1666,17 +1804,124 @@ class FnTr:
             env[p[1]] = ty
             params.append(f"({lname(p[1])} : {lty(ty)})")
         box = {}
-        if fn.self_kind == "mut":
+        sv = self.state_vars()
+        fn_body = desugar_locks(fn.body)
+        if sv:
             if self.ret != UNIT:
-                raise TErr("&mut self method with a return value")
-            body = self.seq(fn.body[1], fn.body[2], env, (lambda env2: "self"), None, box)
-            ret = lty(self.self_ty)
+                raise TErr("function with mutable state and a return value")
+            body = self.seq(fn_body[1], fn_body[2], env, (lambda env2: self.state_tuple(sv)), None, box)
+            ret = " × ".join(par(lty(self.self_ty if v == "self" else env[v])) for v in sv)
+        elif False:
+            pass
         else:
-            body = self.seq(fn.body[1], fn.body[2], env, None, self.ret, box)
+            body = self.seq(fn_body[1], fn_body[2], env, None, self.ret, box)
             ret = lty(self.ret)
         name = self.ctx.lean_name(fn)
         sig = f"def {name} " + " ".join(params) + f" : {ret} :="
         return sig + "\n" + indent(body, 2)
+
+
+def desugar_locks(node):
+    """`if let Ok(mut v) = X.write() { BODY }`  ->  `{ let mut v = X; BODY; X = v; }`   (the lock is always granted: a poisoned
+    lock means a panic elsewhere, which C01 excludes).  `X.read()` likewise, without the write-back."""
+    if isinstance(node, list):
+        return [desugar_locks(x) for x in node]
+    if not isinstance(node, tuple) or not node:
+        return node
+    node = tuple(desugar_locks(x) for x in node)
+    if node[0] == "iflet" and node[1][0] == "p_ts" and node[1][1] == ["Ok"] and len(node[1][2]) == 1 and node[1][2][0][0] == "p_ident" \
+            and node[2][0] == "mcall" and node[2][2] in ("write", "read") and not node[2][3] and node[4] is None and node[3][0] == "block":
+        v = node[1][2][0][1]
+        x = node[2][1]
+        body = node[3]
+        stmts = [("let", ("p_ident", v, True), None, x, None)] + list(body[1])
+        if body[2] is not None:
+            stmts.append(("expr", body[2]))
+        if node[2][2] == "write":
+            stmts.append(("expr", ("assign", x, "=", ("path", [v]))))
+        return ("block", stmts, None)
+    return node
+
+
+SKIP_IF_MENTIONS = {"downlink_error_log_file", "display_flags", "headers"}
+
+
+def mentions(node, names):
+    if isinstance(node, (list, tuple)):
+        if isinstance(node, tuple) and len(node) == 2 and node[0] == "path" and len(node[1]) == 1 and node[1][0] in names:
+            return True
+        return any(mentions(x, names) for x in node)
+    return False
+
+
+def prune(node, dropped):
+    """drop the statements that only concern the -D log file and the screen refresh (not part of the decoding step): a leaf
+    statement that mentions them, or a compound one whose condition / scrutinee does; otherwise look inside"""
+    def head_mentions(e):
+        if e[0] == "if":
+            return mentions(e[1], SKIP_IF_MENTIONS)
+        if e[0] == "iflet":
+            return mentions(e[2], SKIP_IF_MENTIONS) or mentions(e[1], SKIP_IF_MENTIONS)
+        if e[0] == "match":
+            return mentions(e[1], SKIP_IF_MENTIONS)
+        if e[0] == "block":
+            return False
+        return mentions(e, SKIP_IF_MENTIONS)
+    if isinstance(node, tuple) and node and node[0] == "block":
+        stmts = []
+        for st in node[1]:
+            e = st[1] if st[0] == "expr" else None
+            if (e is not None and head_mentions(e)) or (e is None and mentions(st, SKIP_IF_MENTIONS)):
+                dropped.append(st)
+            else:
+                stmts.append(prune(st, dropped))
+        tail = node[2]
+        if tail is not None and head_mentions(tail):
+            dropped.append(tail)
+            tail = None
+        elif tail is not None:
+            tail = prune(tail, dropped)
+        return ("block", stmts, tail)
+    if isinstance(node, tuple):
+        return tuple(prune(x, dropped) for x in node)
+    if isinstance(node, list):
+        return [prune(x, dropped) for x in node]
+    return node
+
+
+def loop_step_fn(fns):
+    """`read_lines`: the body of its `for line in reader.split(b'\\n').map_while(Result::ok)` loop as a function
+    read_lines_step(line: &str, args: &Args, planes: &mut Planes, app_state: &mut AppCounters) of one decoded line"""
+    fn = next((f for f in fns if f.name == "read_lines"), None)
+    if fn is None:
+        raise TErr("read_lines not found")
+    loops = [st[1] for st in fn.body[1] if st[0] == "expr" and st[1][0] == "for"]
+    if len(loops) != 1:
+        raise TErr("read_lines: exactly one for loop expected")
+    _, pat, it, body = loops[0]
+    want_it = ("mcall", ("mcall", ("path", ["reader"]), "split", [("lit_char", 10)]), "map_while", [("path", ["Result", "ok"])])
+    if pat != ("p_ident", "line", False) or it != want_it:
+        raise TErr("read_lines: the loop is no longer `for line in reader.split(b'\\n').map_while(Result::ok)`")
+    stmts = list(body[1])
+    first = stmts[0] if stmts else None
+    if not (first and first[0] == "let" and first[1] == ("p_ident", "line", False) and first[3][0] == "call"
+            and first[3][1][1][-1] == "from_utf8_lossy"):
+        raise TErr("read_lines: the loop no longer starts with `let line = String::from_utf8_lossy(&line)`")
+    # state that lives across iterations must be what the step function is given: app_state, and nothing else declared `mut`
+    muts = [st[1][1] for st in fn.body[1] if st[0] == "let" and st[1][0] == "p_ident" and st[1][2]]
+    if muts != ["app_state"]:
+        raise TErr(f"read_lines: mutable state across lines is {muts}, the model knows app_state only")
+    dropped = []
+    blk = prune(("block", stmts[1:], body[2]), dropped)
+    step = R.Fn("read_lines_step",
+                [(("p_ident", "line", False), ("ref", ("named", "str", []))),
+                 (("p_ident", "args", False), ("ref", ("named", "Args", []))),
+                 (("p_ident", "planes", False), ("ref", ("named", "Planes", []), "mut")),
+                 (("p_ident", "app_state", False), ("ref", ("named", "AppCounters", []), "mut"))],
+                None, blk, None, None, None)
+    step.loop_step = True
+    step.dropped = dropped
+    return step
 
 
 def par_block(t):
@@ -1763,6 +2008,14 @@ TRANSLATE_PLANE = [
     ("src/decoder/plane/from_downlink/from_mds.rs", ["Plane.update_from_downlink<Mds>"]),
 ]
 
+TRANSLATE_TABLE = [
+    ("src/arguments.rs", []),
+    ("src/counters.rs", ["AppCounters.update_count", "AppCounters.reset_cleanup_count", "AppCounters.increment_cleanup_count",
+                         "AppCounters.reset_timestamp", "AppCounters.is_time_to_refresh"]),
+    ("src/decoder/planes.rs", ["Planes.update_aircraft", "Planes.cleanup"]),
+    ("src/reader.rs", ["read_lines_step"]),
+]
+
 # (output file, imports, plan, structs emitted in this file)
 PLANS = [
     ("TransBits.lean", "import SqModel.Model.RustPrimBits", TRANSLATE_BITS, []),
@@ -1770,6 +2023,7 @@ PLANS = [
     ("Trans.lean", "import SqModel.Model.RustPrim\nimport SqModel.Generated.TransFrame", TRANSLATE,
      ["Capability", "SelectedVerticalIntention", "TrackAndTurn", "HeadingAndSpeed", "Meteo"]),
     ("TransPlane.lean", "import SqModel.Generated.Trans", TRANSLATE_PLANE, ["Srt", "Ext", "Mds", "DF", "Plane"]),
+    ("TransTable.lean", "import SqModel.Generated.TransPlane", TRANSLATE_TABLE, ["Args", "AppCounters", "Planes"]),
 ]
 
 
@@ -1786,6 +2040,8 @@ def load_all(repo, plans=None):
             byk = {}
             for fn in fns:
                 byk[ctx.key_of(fn)] = fn
+            if "read_lines_step" in keys:
+                byk["read_lines_step"] = loop_step_fn(fns)
             for k in keys:
                 if k not in byk:
                     raise TErr(f"{rel}: function {k} not found (renamed or removed?)")
@@ -1797,6 +2053,8 @@ def load_all(repo, plans=None):
             # every other non-test function of a translated file must be accounted for (translated in some plan, or listed)
             elsewhere = {k2 for _, _, plan2, _ in PLANS for rel2, keys2 in plan2 if rel2 == rel for k2 in keys2}
             for k in byk:
+                if k == "read_lines_step":
+                    continue
                 if k not in elsewhere and k.split(".")[-1].split("<")[0] not in NOT_TRANSLATED.get(rel, ()):
                     raise TErr(f"{rel}: function {k} is neither translated nor listed as hand-modelled (new function?)")
     for ks in wanted.values():
@@ -1805,8 +2063,12 @@ def load_all(repo, plans=None):
             ptys = [STR if rty(t, fn.impl_of) == ("sstr",) else rty(t, fn.impl_of) for _, t in fn.params]
             ret = rty(fn.ret, fn.impl_of) if fn.ret is not None else UNIT
             st = ("struct", fn.impl_of) if fn.impl_of else None
-            if fn.self_kind == "mut":
-                ret = st
+            mutp = [i for i, (_, t) in enumerate(fn.params) if t[0] == "ref" and len(t) > 2 and t[2] == "mut" and ptys[i][0] == "struct"]
+            if mutp:
+                ctx.mutp[k] = mutp
+            state = ([st] if fn.self_kind == "mut" else []) + [ptys[i] for i in mutp]
+            if state:
+                ret = state[0] if len(state) == 1 else ("tuple", state)
             ctx.sigs[k] = (ctx.lean_name(fn), ptys, ret, fn.self_kind, st)
     return ctx, wanted
 
@@ -1826,6 +2088,9 @@ NOT_TRANSLATED = {
     "src/decoder/downlink/dfs.rs": ("fmt", "log", "update", "icao"),
     "src/decoder/plane.rs": ("default", "fmt"),
     "src/decoder/plane/update_position.rs": ("degrees_to_radians", "haversine"),
+    "src/counters.rs": ("from_update_interval", "print_df_count_line"),
+    "src/decoder/planes.rs": ("new", "default", "print", "sort_printed_planes"),
+    "src/reader.rs": ("read_lines", "display_legend", "display_planes", "spawn_reader_thread", "connect_and_read_tcp", "read_from_file", "clear_screen"),
 }
 
 
